@@ -52,6 +52,10 @@ def main():
                 return s, a
 
             def on_request(adapter, sess):
+                if adapter.anonymous and len(direct) < 10:
+                    direct.append({"law": "every request carries the session's own headers (it is not sent as an anonymous request)",
+                                   "session_kind": label, "requests_without_the_session_header": adapter.anonymous[:3]})
+                    del adapter.anonymous[:]
                 extra = [x for x in created if x is not sess]
                 if extra and len(direct) < 10:
                     direct.append({"law": "no fresh anonymous session is created on behalf of an opened dataset",
@@ -129,6 +133,29 @@ def main():
             except Exception as e:  # noqa
                 direct.append({"law": "every request of a dataset goes through the session it was opened with",
                                "open_url_options": repr(opts), "error": repr(e)[:300]})
+        # (2d) datasets opened with a constraint expression in the URL: metadata and data requests alike go out as the session's
+        for mk in (TR.plain_session, TR.cached_session):
+            for ce in ("x[0:1:1][0:1:2]", "x", "q.a,q.b&q.a>1", "q&q.a>1", "g[0:1:1][0:1:1]", "q.c"):
+                sess5, ad5 = mk(app)
+                created.clear()
+                try:
+                    ds5 = open_url(TR.BASE + "/d?" + ce, session=sess5, protocol="dap2")
+                    for v in ds5.values():
+                        if hasattr(v, "iterdata"):
+                            list(v.iterdata())
+                        elif hasattr(v, "array"):
+                            np.asarray(v.array.data[...])
+                        else:
+                            np.asarray(v.data[...])
+                    r.count(("ce-in-url", mk.__name__, ce))
+                    extra = [x for x in created if x is not sess5]
+                    if ad5.anonymous or extra or not ad5.seen:
+                        direct.append({"law": "every request of a dataset opened with a constraint in its URL goes out through its session, "
+                                              "carrying the session's headers", "url_constraint": ce, "session": mk.__name__,
+                                       "requests_without_the_session_header": ad5.anonymous[:4], "other_sessions_created": len(extra)})
+                except Exception as e:  # noqa
+                    direct.append({"law": "a dataset opened with a constraint in its URL can be read through its session",
+                                   "url_constraint": ce, "session": mk.__name__, "error": repr(e)[:300]})
         root = D.Node("d4")
         arr = np.arange(6, dtype="i4").reshape(2, 3)
         root.members.append(D.Var("x", "Int32", [("anon", 2), ("anon", 3)], arr))
@@ -225,6 +252,39 @@ def main():
             if not legit and len(direct) < 12:
                 direct.append({"law": "two requests share a cache entry only for the same URL or the same shared constraint under the common base",
                                "url1": u1[4], "url2": u2[4]})
+    # ---- (4b) one session consolidated for TWO datacubes (different bases, different shared sets): a constraint declared shared for
+    # one datacube is not shared under the base of the other
+    sess2 = requests_cache.CachedSession(backend="memory")
+    cubes = [(["/time", "/lat"], ["http://h1.org/cubeA/f1.nc", "http://h1.org/cubeA/f2.nc"], ["cubeA"]),
+             (["/lon", "/lat2"], ["http://h1.org/cubeB/y1/g1.nc", "http://h1.org/cubeB/y2/g2.nc"], ["cubeB"])]
+    for sh_, known_, _b in cubes:
+        patch_session_for_shared_dap_cache(sess2, sh_, known_)
+
+    def cube_key(h, p, ce, o):
+        comps = [x for x in p.split("/") if x]
+        for sh_, known_, b_ in cubes:
+            if ce in sh_ and comps[:len(b_)] == b_ and len(comps) > len(b_):
+                return ("shared", h, tuple(b_), ce)
+        return ("url", h, p, ce, tuple(sorted(o)))
+    paths2 = ["/cubeA/f1.nc.dap", "/cubeA/f2.nc.dap", "/cubeB/y1/g1.nc.dap", "/cubeB/y2/g2.nc.dap", "/cubeAB/f1.nc.dap", "/else/f.nc.dap"]
+    ces2 = ["/time", "/lat", "/lon", "/lat2", "/temp", None]
+    for _ in range(150 if T == "quick" else 1500):
+        us = []
+        for _k in range(2):
+            h = rng.choice(["http://h1.org", "http://h2.org"])
+            p2, ce, o = rng.choice(paths2), rng.choice(ces2), rng.choice(others)
+            q = list(o)
+            if ce is not None:
+                q.insert(rng.randint(0, len(q)), "dap4.ce=" + ce)
+            us.append((h, p2, ce, o, h + p2 + ("?" + "&".join(q) if q else "")))
+        k1 = sess2.cache.create_key(requests.Request("GET", us[0][4]).prepare())
+        k2 = sess2.cache.create_key(requests.Request("GET", us[1][4]).prepare())
+        r.count(("key2", us[0][4], us[1][4]))
+        want_same = cube_key(*us[0][:4]) == cube_key(*us[1][:4])
+        if (k1 == k2) != want_same and len(direct) < 12:
+            direct.append({"law": "after consolidating one session for two datacubes, two requests share a cache entry only for the same URL or "
+                                  "the same constraint declared shared for THEIR datacube, under its base",
+                           "url1": us[0][4], "url2": us[1][4], "share_an_entry": k1 == k2, "should": want_same})
     try:
         bad = coq_eval_mismatches(PID + "_keys", IMPORTS, "chk_cachekey", key_cases,
                                   "list string * option (list string) * url * url * bool", shard=250, ztype=False)
